@@ -651,6 +651,30 @@ class LowerToIRVisitor(Visitor.DefaultVisitor):
             result = LinearIR.ConstructPrimitiveInstruction(resultType, rows)
             ctx.BasicBlock.AddInstruction(result)
             return result
+        elif left.Type.IsScalar() and right.Type.IsMatrix():
+            # S * M is the mirror image of M * S: scale every row
+            assert be.GetOperation() == op.Operation.MUL
+
+            rightType = right.Type
+            resultType = ctx.AdaptType(be.GetType())
+            rows = []
+            for row in range(rightType.RowCount):
+                rightRow = LinearIR.MatrixAccessInstruction(
+                    rightType.RowType,
+                    right,
+                    ctx.Function.CreateConstant(LinearIR.IntegerType(), row),
+                )
+                ctx.BasicBlock.AddInstruction(rightRow)
+
+                newRow = LinearIR.BinaryInstruction.FromOperation(
+                    be.GetOperation(), resultType.RowType, left, rightRow
+                )
+                ctx.BasicBlock.AddInstruction(newRow)
+                rows.append(newRow)
+
+            result = LinearIR.ConstructPrimitiveInstruction(resultType, rows)
+            ctx.BasicBlock.AddInstruction(result)
+            return result
 
         instruction = LinearIR.BinaryInstruction.FromOperation(
             be.GetOperation(), ctx.AdaptType(be.GetType()), left, right
